@@ -48,9 +48,9 @@ RULE = (
     "programs of gates / set_params / update_params_from / clear / copy / queries / sampler passes on Circuit with logging "
     "dicts, exact comparison of key lists, hit/miss events and _sample_n_gates after every operation (non-trivial: a query "
     "repeated across a mutation); light cone: 90 / 4500 (program, where) pairs, exact comparison of the selected gate numbers "
-    "(non-trivial: a SWAP in the program and a proper non-empty cone); oracle: 6 / 120 random programs on each of 14 "
+    "(non-trivial: a SWAP in the program and a proper non-empty cone); oracle: 5 / 100 random programs on each of 19 "
     "class x option configurations (+ ~120 targeted programs), every query answer vs a dense numpy reference (exact "
-    "simulators 1e-9, MPS 1e-8, lazy MPS with default dm cutoff 1e-5, default complex64 marginals 1e-4), rejected gates "
+    "simulators and MPS with cutoff=0 1e-9, MPS with the default cutoff 2e-5, default complex64 marginals 1e-4), rejected gates "
     "must leave the simulator unchanged. distinct = distinct (stream, configuration, program) descriptions."
 )
 
@@ -475,11 +475,11 @@ def configs():
     C = {}
 
     def add(name, base, mk, accepts, exact=False, mps=False, lazy=False, perm=False, tol=None):
-        # tolerance: exact simulators 1e-9; MPS simulators split with the documented default cutoff 1e-10 (relative, per
-        # split) -> 1e-8; the lazy simulator compresses with method "dm" (cutoff on squared singular values) -> 1e-5,
-        # and 1e-9 again when cutoff=0 requests no truncation at all
+        # tolerance: exact simulators 1e-9; the MPS simulators truncate with the documented default cutoff 1e-10 on the
+        # SQUARED singular values (Schmidt coefficients below ~1e-5 are dropped: observed state error 6e-6) -> 2e-5;
+        # 1e-9 again for the configurations built with cutoff=0 (no truncation requested at all)
         C[name] = {"name": name, "base": base, "mk": mk, "accepts": ACCEPT_ALL | set(accepts), "exact": exact, "mps": mps,
-                   "lazy": lazy, "perm": perm, "tol": tol if tol is not None else (1e-8 if mps else TOL)}
+                   "lazy": lazy, "perm": perm, "tol": tol if tol is not None else (2e-5 if mps else TOL)}
 
     add("Circuit", "Circuit", lambda N: qtn.Circuit(N), {"3q", "raw3", "SWAP", "ctrl", "ctrl2", "param"}, exact=True)
     add("Circuit[contract=False]", "Circuit", lambda N: qtn.Circuit(N, gate_contract=False), {"3q", "raw3", "SWAP", "param", "param2"}, exact=True)
@@ -488,11 +488,20 @@ def configs():
     add("Circuit[swap-split-gate]", "Circuit", lambda N: qtn.Circuit(N, gate_contract="swap-split-gate"), {"SWAP", "param"}, exact=True)
     add("CircuitDense", "CircuitDense", lambda N: qtn.CircuitDense(N), {"3q", "raw3", "SWAP", "ctrl", "ctrl2"}, exact=True)
     add("CircuitMPS", "CircuitMPS", lambda N: qtn.CircuitMPS(N), {"3q", "raw3", "SWAP", "ctrl", "ctrl2"}, mps=True)
+    add("CircuitMPS[cutoff=0]", "CircuitMPS", lambda N: qtn.CircuitMPS(N, cutoff=0.0), {"3q", "raw3", "SWAP", "ctrl", "ctrl2"}, mps=True, tol=TOL)
+    add("CircuitMPS[nonlocal,cutoff=0]", "CircuitMPS", lambda N: qtn.CircuitMPS(N, gate_contract="nonlocal", cutoff=0.0),
+        {"3q", "raw3", "SWAP", "ctrl", "ctrl2"}, mps=True, tol=TOL)
     add("CircuitMPS[swap+split]", "CircuitMPS", lambda N: qtn.CircuitMPS(N, gate_contract="swap+split"), {"SWAP"}, mps=True)
     add("CircuitMPS[nonlocal]", "CircuitMPS", lambda N: qtn.CircuitMPS(N, gate_contract="nonlocal"), {"3q", "raw3", "SWAP", "ctrl", "ctrl2"}, mps=True)
+    add("CircuitMPS[convert_eager=False]", "CircuitMPS", lambda N: qtn.CircuitMPS(N, convert_eager=False, dtype="complex128"),
+        {"3q", "raw3", "SWAP", "ctrl", "ctrl2"}, mps=True)
     add("CircuitPermMPS", "CircuitPermMPS", lambda N: qtn.CircuitPermMPS(N), set(), mps=True, perm=True)
+    add("CircuitPermMPS[convert_eager=False]", "CircuitPermMPS", lambda N: qtn.CircuitPermMPS(N, convert_eager=False, dtype="complex128"),
+        set(), mps=True, perm=True)
     add("CircuitPermMPS[auto-mps]", "CircuitPermMPS", lambda N: qtn.CircuitPermMPS(N, gate_contract="auto-mps"), {"3q", "raw3"}, mps=True, perm=True)
-    add("CircuitMPSLazy", "CircuitMPSLazy", lambda N: qtn.CircuitMPSLazy(N), {"3q", "raw3", "SWAP", "ctrl", "ctrl2"}, mps=True, lazy=True, tol=1e-5)
+    add("CircuitPermMPS[auto-mps,cutoff=0]", "CircuitPermMPS", lambda N: qtn.CircuitPermMPS(N, gate_contract="auto-mps", cutoff=0.0),
+        {"3q", "raw3"}, mps=True, perm=True, tol=TOL)
+    add("CircuitMPSLazy", "CircuitMPSLazy", lambda N: qtn.CircuitMPSLazy(N), {"3q", "raw3", "SWAP", "ctrl", "ctrl2"}, mps=True, lazy=True)
     add("CircuitMPSLazy[every=1,direct]", "CircuitMPSLazy", lambda N: qtn.CircuitMPSLazy(N, compress_every=1, method="direct"),
         {"3q", "raw3", "SWAP", "ctrl", "ctrl2"}, mps=True, lazy=True)
     add("CircuitMPSLazy[every=4,cutoff=0]", "CircuitMPSLazy", lambda N: qtn.CircuitMPSLazy(N, compress_every=4, cutoff=0.0),
@@ -655,9 +664,33 @@ def gen_query_of(rng, N, cfg, kind):
     return gen_query(rng, N, cfg, kind)
 
 
+# optional arguments that select another code path (conversion of a copy, other contraction route, no norm
+# equalisation ...) without changing the answer
+OPT_POOL_MPS = {
+    "to_dense": [{"dtype": "complex128"}, {"backend": "numpy"}, {"optimize": "greedy"}],
+    "amplitude": [{"dtype": "complex128"}, {"backend": "numpy"}, {"optimize": "greedy"}],
+    "partial_trace": [{"dtype": "complex128"}, {"backend": "numpy"}, {"optimize": "greedy"}],
+    "compute_marginal": [{"backend": "numpy"}, {"optimize": "greedy"}],
+    "local_expectation": [{"dtype": "complex128"}, {"normalized": True}, {"dtype": "complex128", "normalized": True}],
+    "sample": [{"dtype": "complex128"}],
+}
+OPT_POOL_EXACT = {
+    "to_dense": [{"dtype": "complex128"}, {"backend": "numpy"}, {"optimize": "greedy"}, {"simplify_equalize_norms": False}],
+    "amplitude": [{"dtype": "complex128"}, {"backend": "numpy"}, {"optimize": "greedy"}, {"simplify_equalize_norms": False}],
+    "partial_trace": [{"dtype": "complex128"}, {"backend": "numpy"}, {"optimize": "greedy"}, {"simplify_equalize_norms": False}],
+    "local_expectation": [{"dtype": "complex128"}, {"backend": "numpy"}, {"optimize": "greedy"}, {"simplify_equalize_norms": False}],
+    "local_expectation_multi": [{"dtype": "complex128"}, {"optimize": "greedy"}],
+    "compute_marginal": [{"backend": "numpy"}, {"optimize": "greedy"}, {"simplify_equalize_norms": False}],
+    "sample": [{"dtype": "complex128"}, {"backend": "numpy"}, {"optimize": "greedy"}],
+}
+
+
 def gen_query(rng, N, cfg, kind=None):
     kind = kind or rng.choice(QUERY_KINDS_EXACT if cfg["exact"] else QUERY_KINDS_MPS)
     q = {"op": "query", "q": kind}
+    pool = (OPT_POOL_EXACT if cfg["exact"] else OPT_POOL_MPS).get(kind)
+    if pool and rng.random() < 0.4:
+        q["opts"] = dict(rng.choice(pool))
     if cfg["exact"]:
         q["seq"] = rng.choice(SEQS + ["ADCRS"] * 3)
         q["atol"] = rng.choice([1e-12, 1e-12, 1e-14])
@@ -717,9 +750,9 @@ def gen_program(rng, cfg, N, length):
             prog.append(g)
         elif r < 0.70 and cfg["exact"] and "param" in cfg["accepts"]:
             prog.append({"op": "set_params", "seed": rng.randrange(1 << 30), "via": rng.choice(["set_params", "update_params_from"])})
-        elif r < 0.74:
+        elif r < 0.76 and sum(1 for o in prog if o["op"] == "copy") < 2:
             prog.append({"op": "copy"})
-        elif r < 0.77 and cfg["exact"]:
+        elif r < 0.79 and cfg["exact"]:
             prog.append({"op": "batch", "gates": [gen_gate(rng, N, [k for k in pool if k in ("1q", "1qp", "2q", "2qp")]) for _ in range(rng.randint(1, 3))]})
         else:
             q = dict(rng.choice(qpool)) if (qpool and rng.random() < 0.7) else gen_query(rng, N, cfg)
@@ -728,6 +761,14 @@ def gen_program(rng, cfg, N, length):
                 # the same query directly before and after one more gate (nothing else touches the caches in between)
                 prog.append(gen_gate(rng, N, [k for k in pool if k in ("1q", "1qp", "2q", "2qp")]))
                 prog.append(dict(q))
+    # after the first copy every operation names the branch (original or one of the copies) it acts on
+    nb = 1
+    for o in prog:
+        if nb > 1:
+            o["on"] = rng.randrange(nb)
+        if o["op"] == "copy":
+            o["switch"] = rng.random() < 0.5
+            nb += 1
     # a burst of different queries with no mutation in between (cache-key collisions show up here)
     if rng.random() < 0.6:
         for _ in range(rng.randint(3, 6)):
@@ -736,9 +777,14 @@ def gen_program(rng, cfg, N, length):
                 q["q"] = rng.choice(["partial_trace", "local_expectation", "compute_marginal"])
                 q.update({k: v for k, v in gen_query_of(rng, N, cfg, q["q"]).items()})
                 q["seq"], q["atol"] = "ADCRS", 1e-12
+            if nb > 1:
+                q["on"] = rng.randrange(nb)
             prog.append(q)
-    # always end with the basic observables
-    prog.append({"op": "query", "q": "to_dense", "reverse": False, **({"seq": "R", "atol": 1e-12} if cfg["exact"] else {})})
+    # always end with the basic observables, on every branch
+    for k in range(nb):
+        if cfg["mps"] and nb > 1:
+            prog.append({"op": "query", "q": "local_expectation", "where": [rng.randrange(N)], "G_seed": rng.randrange(1 << 30), "on": k})
+        prog.append({"op": "query", "q": "to_dense", "reverse": False, "on": k, **({"seq": "R", "atol": 1e-12} if cfg["exact"] else {})})
     return prog
 
 
@@ -795,9 +841,11 @@ def run_program(ctx, cfg, N, prog, check_each_gate=True, stream="oracle"):
     import quimb as qu
 
     name, base = cfg["name"], cfg["base"]
-    circ = cfg["mk"](N)
-    ref = Ref(N)
-    state = {"record_false_after": None, "copied": False}
+    # every copy() starts an independent BRANCH (simulator + its own reference); later operations name the
+    # branch they act on ("on"), all the others must stay equal to their references
+    branches = [{"circ": cfg["mk"](N), "ref": Ref(N), "state": {"record_false_key": None, "copied": False}}]
+    cur = 0
+    RECORD_KEY_DTYPE = "CircuitMPS.local_expectation:dtype_or_convert_eager_false:record_written_for_a_copy"
 
     def replay(upto, extra=None):
         r = {"config": name, "N": N, "program": prog[: upto + 1], "check_each_gate": check_each_gate}
@@ -808,8 +856,42 @@ def run_program(ctx, cfg, N, prog, check_each_gate=True, stream="oracle"):
     def viol(key, what, i, extra=None):
         ctx.violation(key, what, replay(i, extra))
 
+    def check_records(i, op):
+        """the canonical-form record of EVERY branch must be true after every operation"""
+        if not cfg["mps"]:
+            return
+        lazy_ok = op["op"] == "query" and op["q"] in ("local_expectation", "fidelity")  # these flush the pending gates first
+        for k, b in enumerate(branches):
+            if cfg["lazy"] and not (lazy_ok and k == cur):
+                continue
+            if b["state"]["record_false_key"] is not None or record_truthful(b["circ"]) is not False:
+                continue
+            rec = b["circ"].gate_opts["info"].get("cur_orthog")
+            if k != cur:
+                key = f"{base}:copy:record_of_other_simulator_changed"
+                what = (f"an operation on branch {cur} changed gate_opts['info']['cur_orthog'] of the independent copy / original "
+                        f"(branch {k}) to {rec}: its record no longer describes its own MPS")
+            elif op["op"] == "query" and op["q"].startswith("local_expectation") and (
+                    (op.get("opts") or {}).get("dtype") is not None or not b["circ"].convert_eager):
+                key = RECORD_KEY_DTYPE
+                # fixed by /repo fcc41fff (the copy path now works on a copy of the record): a recurrence is a regression
+                what = (f"{name}.local_expectation(G, {op.get('where')}, {op.get('opts') or 'convert_eager=False'}) canonicalised a COPY of "
+                        f"the MPS but wrote cur_orthog = {rec} into gate_opts['info']: the record no longer describes circ._psi")
+            elif op["op"] in ("gate", "batch"):
+                lab = (op if op["op"] == "gate" else op["gates"][-1])["label"]
+                key = f"{base}:{lab}:cur_orthog_record_false"
+                what = f"after a {lab} gate {name}.gate_opts['info']['cur_orthog'] = {rec} but a site outside that range is not isometric"
+            else:
+                key = f"{base}:{op.get('q', op['op'])}:cur_orthog_record_false"
+                what = f"after {op.get('q', op['op'])} the record cur_orthog = {rec} is false (a site outside that range is not isometric)"
+            b["state"]["record_false_key"] = key
+            viol(key, what, i)
+
     for i, op in enumerate(prog):
         kind = op["op"]
+        if "on" in op:
+            cur = op["on"] % len(branches)
+        circ, ref, state = branches[cur]["circ"], branches[cur]["ref"], branches[cur]["state"]
         if kind == "gate" or kind == "batch":
             gates = [op] if kind == "gate" else op["gates"]
             before = None
@@ -850,20 +932,17 @@ def run_program(ctx, cfg, N, prog, check_each_gate=True, stream="oracle"):
             for g in gates:
                 ref.apply(ref_descr(g))
                 ctx.bump(f"gate:{g['kind']}")
-            # canonical-form record of the MPS simulators
-            if cfg["mps"] and not cfg["lazy"] and state["record_false_after"] is None:
-                if record_truthful(circ) is False:
-                    lab = gates[-1]["label"]
-                    state["record_false_after"] = lab
-                    viol(f"{base}:{lab}:cur_orthog_record_false",
-                         f"after a {lab} gate {name}.gate_opts['info']['cur_orthog'] = {circ.gate_opts['info'].get('cur_orthog')} "
-                         "but a site outside that range is not isometric", i)
-            suspicious = cfg["perm"] and any(g["controls"] for g in gates)
+            check_records(i, op)
+            suspicious = cfg["perm"] and any(g["controls"] or g["label"] == "SWAP" for g in gates)
             if (check_each_gate and not cfg["lazy"]) or suspicious:
                 got = np.asarray(circ.to_dense()).ravel() if not cfg["exact"] else np.asarray(circ.to_dense(simplify_sequence="R")).ravel()
                 if got.shape != ref.psi.shape or not np.allclose(got, ref.psi, atol=cfg["tol"]):
                     g = gates[-1]
-                    if cfg["perm"] and g["controls"]:
+                    if cfg["perm"] and g["controls"] and len(g["qubits"]) == 2:
+                        key = f"{base}:controlled_2q:cutoff_0:accepted_wrong_state"
+                    elif cfg["perm"] and g["label"] == "SWAP" and not g["controls"]:
+                        key = f"{base}:SWAP:cutoff_0:accepted_wrong_state"
+                    elif cfg["perm"] and g["controls"]:
                         key = f"{base}:controlled:controls_not_mapped_to_physical_sites"
                     else:
                         key = f"{base}:gate:{g['kind']}:wrong_state"
@@ -909,13 +988,19 @@ def run_program(ctx, cfg, N, prog, check_each_gate=True, stream="oracle"):
             except Exception as e:
                 viol(f"{base}:copy:raised", f"{type(e).__name__}: {e}", i)
                 raise Abort()
-            # continue on the copy in half of the cases, keep the original otherwise; the other one must not be affected
-            circ = c2
+            shared = shared_mutables(circ, c2)
+            if shared:
+                viol(f"CircuitBase.copy:shares_mutable_state:{shared[0]}",
+                     f"{name}.copy() shares mutable state with the original: {shared} (an operation on one simulator is seen by the other)", i)
+            branches.append({"circ": c2, "ref": ref.copy(), "state": {"record_false_key": state["record_false_key"], "copied": True}})
             state["copied"] = True
+            if op.get("switch", True):
+                cur = len(branches) - 1
             ctx.bump("copy")
         elif kind == "query":
             try:
                 run_query(ctx, cfg, circ, ref, op, N, lambda key, what, extra=None: viol(key, what, i, extra), state)
+                check_records(i, op)
             except Abort:
                 raise
             except Exception as e:
@@ -931,10 +1016,71 @@ def run_program(ctx, cfg, N, prog, check_each_gate=True, stream="oracle"):
                     key = "Circuit.get_uni:idle_wire"
                 elif op["q"] == "amplitude" and isinstance(e, ZeroDivisionError) and cfg["exact"] and abs(ref.psi[int(op["b"], 2)]) < 1e-12:
                     key = "Circuit.amplitude:zero_amplitude:nan_or_ZeroDivisionError"
+                elif isinstance(e, ZeroDivisionError) and cfg["exact"] and _zero_expectation(op, ref):
+                    key = ZERO_LE_KEY
                 else:
                     key = f"{base}:{op['q']}:raised"
                 viol(key, f"{name}.{op['q']} raised {msg[:200]}", i)
-    return circ, ref
+    if len(branches) > 1 and cfg["mps"]:
+        OWNERSHIP_SEEN.append((name, N, [id(b["circ"].gate_opts.get("info")) for b in branches]))
+    return branches[cur]["circ"], branches[cur]["ref"]
+
+
+OWNERSHIP_SEEN = []  # per program with copies: ids of the info dicts of all branches (evaluated against the Coq ownership model)
+
+
+def _containers(obj, path, out, depth=0):
+    """ids of the mutable containers reachable from obj through dict / list / tuple nesting"""
+    if isinstance(obj, (dict, list, set)):
+        out[id(obj)] = path
+        if depth < 3:
+            items = obj.items() if isinstance(obj, dict) else enumerate(obj) if isinstance(obj, list) else ()
+            for k, v in items:
+                _containers(v, f"{path}.{k}", out, depth + 1)
+    elif isinstance(obj, tuple) and depth < 3:
+        for k, v in enumerate(obj):
+            _containers(v, f"{path}.{k}", out, depth + 1)
+
+
+# caches of converted gate arrays keyed by id(): sharing them between copies is intended and harmless
+SHARED_OK = ("_backend_gate_cache",)
+
+
+def shared_mutables(c1, c2):
+    """attribute paths of mutable state that a circuit and its copy both reference"""
+    a, b = {}, {}
+    for nm, v in vars(c1).items():
+        if nm not in SHARED_OK and nm not in ("_psi", "_storage", "_sampled_conditionals"):
+            _containers(v, nm, a)
+    for nm, v in vars(c2).items():
+        if nm not in SHARED_OK and nm not in ("_psi", "_storage", "_sampled_conditionals"):
+            _containers(v, nm, b)
+    out = sorted({a[i] for i in a if i in b})
+    for nm in ("_storage", "_sampled_conditionals"):  # the cached values may be shared (they are only handed out as copies)
+        if hasattr(c1, nm) and getattr(c1, nm) is getattr(c2, nm, None):
+            out.append(nm)
+    if c1._psi is c2._psi or {id(t) for t in c1._psi.tensors} & {id(t) for t in c2._psi.tensors}:
+        out.append("_psi")
+    return out
+
+
+def _zero_expectation(op, ref):
+    """is the query a local expectation (or its rehearsal with Z on qubit 0) whose exact value is 0 ?"""
+    import quimb as qu
+
+    try:
+        if op["q"] == "rehearse" and op.get("which") == "local_expectation":
+            return abs(ref.expectation(np.diag([1.0, -1.0]), [0])) < 1e-12
+        if op["q"] in ("local_expectation", "local_expectation_multi"):
+            k = len(op["where"])
+            G = np.diag([1.0, -1.0]) if op.get("G") == "Z" else np.asarray(qu.rand_herm(2**k, seed=op["G_seed"]))
+            vals = [ref.expectation(G, op["where"])]
+            if op["q"] == "local_expectation_multi":
+                vals.append(ref.expectation(G @ G + 0.5j * G, op["where"]))
+            return any(abs(v) < 1e-12 for v in vals)
+    except Exception:
+        return False
+    return False
 
 
 def idle_wire(circ):
@@ -975,6 +1121,9 @@ def site_tag_lost(circ):
         return False
 
 
+ZERO_LE_KEY = "Circuit.local_expectation:zero_value:nan_or_ZeroDivisionError"
+
+
 def run_query(ctx, cfg, circ, ref, q, N, viol, state):
     import quimb as qu
 
@@ -988,11 +1137,13 @@ def run_query(ctx, cfg, circ, ref, q, N, viol, state):
     sopts = {}
     if cfg["exact"] and "seq" in q:
         sopts = {"simplify_sequence": q["seq"], "simplify_atol": q["atol"]}
+    qopts = dict(q.get("opts") or {})
+    sopts = {**sopts, **qopts}
 
     def bad(what, extra=None, sub=""):
         key = f"{base}:{kind}{sub}"
-        if kind in ("local_expectation", "fidelity") and state.get("record_false_after"):
-            key = f"{base}:{kind}:stale_cur_orthog_after_{state['record_false_after']}"
+        if kind in ("local_expectation", "local_expectation_multi", "fidelity") and state.get("record_false_key"):
+            key = state["record_false_key"]  # consequence of the record already reported false
         viol(key, f"{name}.{kind}: {what}", extra)
 
     if kind == "to_dense":
@@ -1035,7 +1186,7 @@ def run_query(ctx, cfg, circ, ref, q, N, viol, state):
             bad(f"reduced density matrix on {q['keep']} differs from the reference")
     elif kind in ("local_expectation", "local_expectation_multi"):
         k = len(q["where"])
-        G = np.asarray(qu.rand_herm(2**k, seed=q["G_seed"]))
+        G = np.diag([1.0, -1.0]) if q.get("G") == "Z" else np.asarray(qu.rand_herm(2**k, seed=q["G_seed"]))
         where = tuple(q["where"]) if k > 1 else (q["where"][0] if q["G_seed"] % 2 else tuple(q["where"]))
         if kind == "local_expectation_multi":
             G2 = G @ G + 0.5j * G
@@ -1045,11 +1196,13 @@ def run_query(ctx, cfg, circ, ref, q, N, viol, state):
                 bad(f"stacked expectations {got} differ from the reference {want}")
         else:
             if cfg["mps"]:
-                got = complex(np.asarray(circ.local_expectation(G, where)))
+                got = complex(np.asarray(circ.local_expectation(G, where, **qopts)))
             else:
                 got = complex(np.asarray(circ.local_expectation(G, where, **sopts)))
             want = ref.expectation(G, q["where"])
-            if not abs(got - want) <= TOL:
+            if got != got and cfg["exact"] and abs(want) < 1e-12:
+                viol(ZERO_LE_KEY, f"{name}.local_expectation(G, {q['where']}, {sopts}) = NaN for an expectation value that is exactly 0")
+            elif not abs(got - want) <= TOL:
                 bad(f"<G_{q['where']}> = {got} but the reference is {want}")
     elif kind == "compute_marginal":
         fix = None if q["fix"] is None else {int(k): v for k, v in q["fix"].items()}
@@ -1072,6 +1225,7 @@ def run_query(ctx, cfg, circ, ref, q, N, viol, state):
         kw = {}
         if cfg["exact"]:
             kw = {"group_size": q["group_size"], "simplify_sequence": q.get("seq", "ADCRS")}
+        kw.update(qopts)
         s1 = list(circ.sample(q["C"], seed=q["seed"], **kw))
         s2 = list(circ.sample(q["C"], seed=q["seed"], **kw))
         if s1 != s2:
@@ -1126,7 +1280,7 @@ def run_query(ctx, cfg, circ, ref, q, N, viol, state):
 def oracle_stage(ctx):
     C = configs()
     rng = ctx.rng
-    nprog = ctx.n(6, 120)
+    nprog = ctx.n(5, 100)
     ran = 0
     for name, cfg in C.items():
         for k in range(nprog):
@@ -1192,7 +1346,7 @@ def targeted_stage(ctx):
                         qle([w]), {"op": "query", "q": "fidelity"}, {"op": "query", "q": "to_dense"}]
                 run(cfgname, 4, prog, check_each=False)
     # the permutation-tracking simulator: SWAP, controlled gates, three-qubit gates after a non-trivial permutation
-    for cfgname in ("CircuitPermMPS", "CircuitPermMPS[auto-mps]"):
+    for cfgname in ("CircuitPermMPS", "CircuitPermMPS[auto-mps]", "CircuitPermMPS[auto-mps,cutoff=0]"):
         pre = [g("H", 0), g("H", 1), g("RY", 0.375, 2), g("H", 3), g("CNOT", 0, 3), g("FSIM", 0.25, 0.5, 3, 1)]
         tails = [
             [g("SWAP", 0, 2)], [g("SWAP", 3, 0)], [g("SWAP", 1, 2)],
@@ -1211,6 +1365,35 @@ def targeted_stage(ctx):
                 {**g("CRZ", -0.5, 0, 2), "parametrize": True, "kind": "param2", "how": "string", "expect": "may_reject"},
                 {"op": "query", "q": "to_dense"}, g("CNOT", 1, 3), {"op": "query", "q": "amplitude", "b": "1101"}]
         run(cfgname, 4, prog, check_each=False)
+    # copy independence (the seeded defect class: state shared between a simulator and its copy): make the record definite,
+    # copy, work on the copy only (canonicalising queries, one more two-qubit gate), then query the ORIGINAL everywhere
+    brick = [g("H", 0), g("H", 1), g("H", 2), g("H", 3), g("CX", 0, 1), g("CX", 2, 3), g("RY", 0.875, 0), g("RZ", 1.375, 1),
+             g("RY", 2.125, 2), g("RZ", 0.625, 3), g("CX", 1, 2), g("RY", 1.625, 1), g("RZ", 2.375, 2)]
+    for cfgname in C:
+        prog = list(brick) + [qle([3]), {"op": "copy", "switch": True},
+                              {**qle([0], seed=5), "on": 1}, {**g("CX", 0, 1), "on": 1}, {**qle([1], seed=6), "on": 1}]
+        prog += [{**qle([w], seed=7 + w), "on": 0} for w in range(4)]
+        prog += [{"op": "query", "q": "to_dense", "on": 0, **({"seq": "R", "atol": 1e-12} if C[cfgname]["exact"] else {})},
+                 {**qle([2, 3], seed=11), "on": 1}, {"op": "query", "q": "amplitude", "b": "0110", "on": 0,
+                                                    **({"seq": "ADCRS", "atol": 1e-12} if C[cfgname]["exact"] else {})}]
+        run(cfgname, 4, prog, check_each=False)
+    # queries through every optional code path, each followed by the plain query everywhere ("never depends on what was queried")
+    for cfgname in C:
+        pool = OPT_POOL_EXACT if C[cfgname]["exact"] else OPT_POOL_MPS
+        sqx = {"seq": "ADCRS", "atol": 1e-12} if C[cfgname]["exact"] else {}
+        for kind, optlist in pool.items():
+            if kind in ("sample", "local_expectation_multi") and ctx.quick:
+                continue
+            for opts in optlist:
+                base_q = {"to_dense": {"q": "to_dense", "reverse": False}, "amplitude": {"q": "amplitude", "b": "1001"},
+                          "partial_trace": {"q": "partial_trace", "keep": [0, 2]}, "local_expectation": {"q": "local_expectation", "where": [0], "G_seed": 3},
+                          "local_expectation_multi": {"q": "local_expectation_multi", "where": [1], "G_seed": 4},
+                          "compute_marginal": {"q": "compute_marginal", "where": [1], "fix": None, "dtype": "complex128"},
+                          "sample": {"q": "sample", "C": 2, "seed": 3, "group_size": 2}}[kind]
+                prog = list(brick) + [{"op": "query", **base_q, **sqx, "opts": opts}]
+                prog += [{**qle([w], seed=20 + w), **sqx} for w in range(4)]
+                prog += [{"op": "query", **base_q, **sqx}, {"op": "query", "q": "to_dense", "reverse": False, **({"seq": "R", "atol": 1e-12} if sqx else {})}]
+                run(cfgname, 4, prog, check_each=False)
     # copy, then queries that need the conditional cache
     for pre_q in ("sample", "to_dense", None):
         prog = [g("H", 0), g("CNOT", 0, 1), g("H", 2)]
@@ -1245,6 +1428,8 @@ def targeted_stage(ctx):
          {"op": "set_params", "seed": 5, "via": "set_params"}, {"op": "query", "q": "to_dense", **sq}],
     ):
         run("Circuit", 3, prog, check_each=False)
+    run("Circuit", 2, [g("H", 0), g("CX", 0, 1), {"op": "query", "q": "local_expectation", "where": [0], "G": "Z", "G_seed": 1, "seq": "R", "atol": 1e-12},
+                       {"op": "query", "q": "local_expectation", "where": [0], "G": "Z", "G_seed": 1, "seq": "ADCRS", "atol": 1e-12}], check_each=False)
     run("Circuit[contract=False]", 3, [g("H", 2), g("SWAP", 2, 1), g("T", 2), g("H", 0), {"op": "query", "q": "uni", "transposed": False, **sq},
                                        {"op": "query", "q": "to_dense", "seq": "R", "atol": 1e-12}], check_each=False)
     run("Circuit[split-gate]", 4, [g("U1", 2.5, 2), g("SWAP", 3, 1), {"op": "batch", "gates": [g("GIVENS", -3.0, 0, 2), g("CY", 2, 3), g("IS", 0, 1)]},
@@ -1663,7 +1848,7 @@ def _cache_searcher(ctx, failed, info):
 PENDING = []
 
 CORR_HEADER = (
-    "From Coq Require Import List Arith Bool ZArith.\nFrom QV Require Import C07.Model C07.LightconeModel.\nImport ListNotations.\n"
+    "From Coq Require Import List Arith Bool ZArith.\nFrom QV Require Import C07.Model C07.LightconeModel C07.RecordModel.\nImport ListNotations.\n"
     # tracker
     "Fixpoint phys_trace (qs : list nat) (gates : list (list nat)) : list (list nat) :=\n"
     "  match gates with [] => [] | g :: r => match perm_step qs g with Some (qs', ph) => ph :: phys_trace qs' r | None => [] end end.\n"
@@ -1680,6 +1865,24 @@ CORR_HEADER = (
     "Fixpoint check_all (tr : list (list event * st)) (os : list obs) : bool :=\n"
     "  match tr, os with [], [] => true | p :: tr', o :: os' => check_step p o && check_all tr' os' | _, _ => false end.\n"
 )
+
+
+def ownership_cases(ctx):
+    """info-dict identities of all branches of every program with copies, checked by the Coq ownership predicate"""
+    cases, info = [], {}
+    for cid, (name, N, ids) in enumerate(OWNERSHIP_SEEN[:400], 1):
+        canon = {}
+        small = [canon.setdefault(x, len(canon)) for x in ids]
+        info[cid] = {"config": name, "N": N, "info_dict_ids": small}
+        cases.append((cid, f"nodupb {natlist(small)}"))
+    OWNERSHIP_SEEN.clear()
+    if cases:
+        PENDING.append(("ownership", cases, info, _ownership_searcher))
+
+
+def _ownership_searcher(ctx, failed, info):
+    for c in failed[:5]:
+        ctx.broken_obligation("correspondence:record_ownership", info[c])
 
 
 def correspondence_flush(ctx):
@@ -1746,16 +1949,18 @@ def run(ctx):
     else:
       ctx.check_props([
         "Base/Sums.vo", "C07/CMat.vo", "C07/GatesGen.vo", "C07/GateProofs.vo", "C07/Model.vo", "C07/Proofs.vo",
-        "C07/Ctrl.vo", "C07/LightconeModel.vo", "C07/Lightcone.vo", "C07/Mutators.vo", "C07/Inventory.vo", "C07/Props.v",
+        "C07/Ctrl.vo", "C07/LightconeModel.vo", "C07/Lightcone.vo", "C07/RecordModel.vo", "C07/Record.vo", "C07/Mutators.vo", "C07/Inventory.vo", "C07/Props.v",
     ])
     PENDING.clear()
     timed(perm_stage)
     timed(cache_stage)
     timed(lightcone_stage)
-    if not only or any(x in only for x in ("perm_stage", "cache_stage", "lightcone_stage")):
-        timed(correspondence_flush)
+    OWNERSHIP_SEEN.clear()
     timed(targeted_stage)
     timed(oracle_stage)
+    if not only or any(x in only for x in ("perm_stage", "cache_stage", "lightcone_stage", "correspondence_flush")):
+        ownership_cases(ctx)
+        timed(correspondence_flush)
 
 
 def replay(ctx, path):
